@@ -509,6 +509,10 @@ func (hs *clientHandshakeState) doFullHandshake() error {
 
 func (hs *clientHandshakeState) establishKeys() error {
 	c := hs.c
+	// workKey 及其切片（各方向的密钥、IV、MAC 密钥）在本函数内被写入并拷贝进密码对象；
+	// Close 可能并发地对 workKey 置零，二者以 workKeyMu 互斥（本函数无回调、无 I/O）。
+	c.workKeyMu.Lock()
+	defer c.workKeyMu.Unlock()
 
 	workKey, clientMAC, serverMAC, clientKey, serverKey, clientIV, serverIV :=
 		keysFromMasterSecret(c.vers, hs.suite, hs.masterSecret, hs.hello.random, hs.serverHello.random, hs.suite.macLen, hs.suite.keyLen, hs.suite.ivLen)
